@@ -14,10 +14,11 @@ echo "demo with change: exit $? ($(grep -E '^test result' seeded_out/demo_with.l
 cargo nextest run --workspace --no-fail-fast --offline > seeded_out/suite_with.log 2>&1
 echo "suite with change: $(grep -E 'Summary' seeded_out/suite_with.log | tail -1)" >> $out
 grep -E "^\s+FAIL" seeded_out/suite_with.log | sort -u | head -10 >> $out
-git stash push -q -- avro/src avro_derive/src
+# no `git stash` here: the stash is shared by all worktrees of the repository
+git diff -- avro/src avro_derive/src > seeded_out/patch.verified.diff
+git checkout -q -- avro/src avro_derive/src
 cargo test -p apache-avro --test "$demo" --offline > seeded_out/demo_without.log 2>&1
 echo "demo without change: exit $? ($(grep -E '^test result' seeded_out/demo_without.log | head -1))" >> $out
-git stash pop -q
-git diff -- avro/src avro_derive/src > seeded_out/patch.verified.diff
+git apply seeded_out/patch.verified.diff
 echo "patch lines: $(wc -l < seeded_out/patch.verified.diff)" >> $out
 cat $out
